@@ -89,11 +89,12 @@ def showInv (hs : List (List Char)) : Mllp.Inv → String
 
 /-- one history on the element-graph core: `HEAP <nodes> <maxreps> <ops>`
     nodes  = `name:level:version,…`            (ids are positions)
-    maxreps = `name=k,…` or `-`                (STRICT cardinality per child name; unlisted = unbounded)
-    ops    = `A.p.c.v;I.p.c.li.v;R.p.c;X.p.old.new.v;…`  (v = 1 when the structure accepts the child) -/
+    maxreps = `parent/name=k,…` or `-`         (STRICT cardinality per parent name and child name; unlisted = unbounded)
+    ops    = `A.p.c.v;I.p.c.li.v;R.p.c;X.p.old.new.v;S.p.c.v;U.c;T.p.c.v;P.c.v;…`  (v = 1 when the structure accepts the child) -/
 def heapShow (h : Heap.Heap) : String :=
   ";".intercalate (h.map (fun n => ",".intercalate (n.list.map toString) ++ "/" ++
-    (match n.parent with | some p => toString p | none => "-") ++ "/" ++ (match n.tparent with | some p => toString p | none => "-")))
+    (match n.parent with | some p => toString p | none => "-") ++ "/" ++ (match n.tparent with | some p => toString p | none => "-")
+    ++ "/" ++ ",".intercalate ((n.tidx.toArray.qsort (· < ·)).toList.map toString)))
 
 def heapRun (nodes maxreps ops : String) : String :=
   let h0 : Heap.Heap := (nodes.splitOn ",").filterMap fun t =>
@@ -104,7 +105,7 @@ def heapRun (nodes maxreps ops : String) : String :=
     match t.splitOn "=" with
     | [n, k] => some (n, (k.toInt?.getD (-1)))
     | _ => none
-  let rules (v : Bool) : Heap.Rules := ⟨fun _ _ => v, fun _ name => (mr.lookup name).getD (-1), fun p => p.level == 1⟩
+  let rules (v : Bool) : Heap.Rules := ⟨fun _ _ => v, fun pn name => (mr.lookup (pn.name ++ "/" ++ name)).getD (-1), fun p => p.level == 1⟩
   let step (acc : Heap.Heap × List String) (o : String) : Heap.Heap × List String :=
     let (h, out) := acc
     let r : Heap.Heap × Except Heap.Err Unit :=
@@ -113,6 +114,11 @@ def heapRun (nodes maxreps ops : String) : String :=
       | ["I", p, c, li, v] => Heap.insertAt (rules (v == "1")) p.toNat! c.toNat! li.toNat! h
       | ["R", p, c] => Heap.remove p.toNat! c.toNat! h
       | ["X", p, a, b, v] => Heap.replaceChild (rules (v == "1")) p.toNat! a.toNat! b.toNat! h
+      | ["S", p, c, v] => Heap.setParent (rules (v == "1")) p.toNat! c.toNat! h
+      | ["U", c] => Heap.unsetParent c.toNat! h
+      | ["N"] => (h, .ok ())
+      | ["T", p, c, v] => Heap.setTrav (rules (v == "1")) p.toNat! c.toNat! h
+      | ["P", c, v] => Heap.promote (rules (v == "1")) h.length c.toNat! h
       | _ => (h, .error .crash)
     let tag := match r.2 with
       | .ok _ => "ok" | .error .childNotValid => "ChildNotValid" | .error .maxChild => "MaxChildLimitReached"
